@@ -24,7 +24,37 @@ from typing import NamedTuple
 
 NAMES = ("a", "b", "c")
 NAMESPACES = ("t1", "t2")
+# namespace-value families ("ns-*"): names chosen so that '<ns>/<name>' strings can
+# coincide, namespace values chosen around Python falsiness / str() equality
+NS_NAMES = ("x", "a/x", "b/x", "a/b/x")
+NS_VALUES: tuple[object, ...] = (None, 0, 1, "0", "1", "", False, True, 0.0, "a", "a/b")
+VIA = ("kwarg", "context", "render-tag", "include-tag", "kwarg+context")
 PLACEHOLDER_WHO = "{{ who }}"
+
+
+def is_ns_family(fam: str) -> bool:
+    return fam.startswith("ns-")
+
+
+def names_of(fam: str) -> tuple[str, ...]:
+    return NS_NAMES if is_ns_family(fam) else NAMES
+
+
+def ns_values_of(fam: str) -> tuple[object, ...]:
+    return NS_VALUES if is_ns_family(fam) else NAMESPACES
+
+
+def ns_tag(v: object) -> str:
+    """Type-sensitive, file-system-safe identity of a namespace value: the engine is handed
+    the value itself, so 1, '1', True and 1.0 are four different namespaces."""
+    return f"{type(v).__name__}-{v}".replace("/", "%")
+
+
+def other_ns(fam: str, ns: int) -> object:
+    """The (different) value the render context carries when a load passes both."""
+    vals = ns_values_of(fam)
+    return vals[ns % len(vals)]
+
 PLACEHOLDER_SITE = "{{ site }}"
 
 
@@ -93,18 +123,73 @@ def op_from(j: Any) -> Op:
     return Op(str(j[0]), *[int(x) for x in j[1:6]])
 
 
-def show_op(o: Op) -> str:
+def show_op(o: Op, fam: str = "") -> str:
+    names = names_of(fam)
     if o.kind == "load":
-        s = ("aload " if o.mode else "load ") + NAMES[o.name]
-        if o.ns:
+        s = ("aload " if o.mode else "load ") + names[o.name]
+        if is_ns_family(fam):
+            if o.ns:
+                v = NS_VALUES[o.ns - 1]
+                s += f"[ns={v!r} via {VIA[o.via]}"
+                if o.via == 4:
+                    s += f", context ns={other_ns(fam, o.ns)!r}"
+                s += "]"
+            elif o.via:
+                s += f"[no ns, via {VIA[o.via]}]"
+        elif o.ns:
             s += f"[{NAMESPACES[o.ns - 1]} via {'context' if o.via else 'kwargs'}]"
         s += {0: "(no-g)", 1: "(g)", 2: "(g={})"}[o.g]
         return s
     if o.kind == "fail":
         return "fail-next"
     if o.kind == "modify" and (o.g or o.via):
-        return f"modify {NAMES[o.name]}[mtime {MTIME_KINDS[o.g]}{', rename' if o.via else ''}]"
-    return f"{o.kind} {NAMES[o.name]}"
+        return f"modify {names[o.name]}[mtime {MTIME_KINDS[o.g]}{', rename' if o.via else ''}]"
+    return f"{o.kind} {names[o.name]}"
+
+
+def nsval_pairs() -> Iterator[tuple[Op, ...]]:
+    """Namespace-value family: every ordered pair of loads over 4 names x {no namespace
+    (top-level or through a render tag), each of the 11 namespace values supplied by
+    keyword / render context / render tag / include tag / keyword and context at once};
+    both loads sync or both async."""
+    singles: list[tuple[int, int, int]] = []
+    for n in range(len(NS_NAMES)):
+        singles.append((n, 0, 0))
+        singles.append((n, 0, 2))
+        for ns in range(1, len(NS_VALUES) + 1):
+            for via in range(5):
+                singles.append((n, ns, via))
+    for mode in (0, 1):
+        for a in singles:
+            for b in singles:
+                yield (Op("load", a[0], a[1], 0, mode, a[2]), Op("load", b[0], b[1], 0, mode, b[2]))
+
+
+def nsval_count() -> int:
+    k = len(NS_NAMES) * (2 + 5 * len(NS_VALUES))
+    return 2 * k * k
+
+
+def engine_key_collision(a: Op, b: Op, fam: str) -> str | None:
+    """(diagnostic, for naming only) Do two loads of different (namespace, name) identity
+    map to the same '<namespace>/<name>' string?"""
+    def ident(o: Op) -> tuple[bool, object, str]:
+        if not o.ns:
+            return (False, None, NS_NAMES[o.name])
+        return (True, NS_VALUES[o.ns - 1], NS_NAMES[o.name])
+
+    def text(i: tuple[bool, object, str]) -> str:
+        return f"{i[1]}/{i[2]}" if i[0] else i[2]
+
+    if not is_ns_family(fam):
+        return None
+    ia, ib = ident(a), ident(b)
+    same = ia[0] == ib[0] and ia[2] == ib[2] and type(ia[1]) is type(ib[1]) and ia[1] == ib[1]
+    if same or text(ia) != text(ib):
+        return None
+    if ia[2] == ib[2]:
+        return "values-with-equal-str"
+    return "slash-in-name-or-namespace"
 
 
 def canonical_histories(
@@ -419,8 +504,9 @@ def expect_load(
 # ---------------------------------------------------------------------------
 
 
-def pattern(ops: list[Op], category: str) -> str:
-    """Abstract rendition of a (minimised) history: op kinds, sync/async, whether a
+def pattern(ops: list[Op], category: str, fam: str = "") -> str:
+    """(namespace-value families: concrete names, values and channels are kept, they are
+    the point.)  Abstract rendition of a (minimised) history: op kinds, sync/async, whether a
     namespace / globals were given; names and namespaces only when more than one
     distinct one occurs (renamed x,y,z / n1,n2 in order of first use)."""
     names: list[int] = []
@@ -432,6 +518,7 @@ def pattern(ops: list[Op], category: str) -> str:
             nss.append(o.ns)
     multi_n = len(names) > 1
     multi_ns = len(nss) > 1
+    nsfam = is_ns_family(fam)
     show_g = category.startswith("stale-globals") or category.startswith("env-globals")
     parts = []
     for o in ops:
@@ -439,6 +526,8 @@ def pattern(ops: list[Op], category: str) -> str:
             parts.append("fail-next")
             continue
         nm = " " + "xyz"[names.index(o.name)] if multi_n else ""
+        if nsfam:
+            nm = " " + NS_NAMES[o.name]
         if o.kind != "load":
             extra = ""
             if o.kind == "modify" and (o.g or o.via):
@@ -448,7 +537,12 @@ def pattern(ops: list[Op], category: str) -> str:
             parts.append(o.kind + extra + nm)
             continue
         s = ("aload" if o.mode else "load") + nm
-        if o.ns:
+        if nsfam:
+            if o.ns:
+                s += f"[ns={NS_VALUES[o.ns - 1]!r}" + (f" via {VIA[o.via]}" if o.via else "") + "]"
+            elif o.via:
+                s += f"[via {VIA[o.via]}]"
+        elif o.ns:
             s += f"[n{nss.index(o.ns) + 1}]" if multi_ns else "[ns]"
         if o.g == 1:
             s += "(g)"
@@ -482,16 +576,17 @@ def sort_commuting(ops: list[Op]) -> list[Op]:
     return out
 
 
-def simplifications(ops: list[Op]) -> Iterator[list[Op]]:
+def simplifications(ops: list[Op], fam: str = "") -> Iterator[list[Op]]:
     """Simplifications of a history, in a fixed order (used after ddmin to reach a
     canonical minimal form): first whole-history ones (all loads sync, no namespaces,
     one namespace, namespace by keyword), then one attribute of one step."""
     loads = [o for o in ops if o.kind == "load"]
+    nsfam = is_ns_family(fam)
     if any(o.mode for o in loads):
         yield [o._replace(mode=0) if o.kind == "load" else o for o in ops]
     if any(o.ns for o in loads):
         yield [o._replace(ns=0, via=0) if o.kind == "load" else o for o in ops]
-    if any(o.ns == 2 for o in loads):
+    if any(o.ns == 2 for o in loads) and not nsfam:
         yield [o._replace(ns=1) if (o.kind == "load" and o.ns == 2) else o for o in ops]
     if any(o.via for o in loads):
         yield [o._replace(via=0) if o.kind == "load" else o for o in ops]
@@ -511,9 +606,11 @@ def simplifications(ops: list[Op]) -> Iterator[list[Op]]:
             yield [*ops[:i], o._replace(mode=0), *ops[i + 1 :]]
         if o.ns:
             yield [*ops[:i], o._replace(ns=0, via=0), *ops[i + 1 :]]
-        if o.ns and o.via:
+        if o.via:
             yield [*ops[:i], o._replace(via=0), *ops[i + 1 :]]
-        if o.ns == 2:
+        if o.via == 3:
+            yield [*ops[:i], o._replace(via=2), *ops[i + 1 :]]
+        if o.ns == 2 and not nsfam:
             yield [*ops[:i], o._replace(ns=1), *ops[i + 1 :]]
         if o.g:
             yield [*ops[:i], o._replace(g=0), *ops[i + 1 :]]
@@ -527,11 +624,12 @@ def simplifications(ops: list[Op]) -> Iterator[list[Op]]:
             yield [o._replace(name=lo) if (o.kind != "fail" and o.name == hi) else o for o in ops]
     # swap namespaces so the first one used is n1
     first = next((o.ns for o in loads if o.ns), 0)
-    if first == 2:
+    if first == 2 and not nsfam:
         yield [o._replace(ns=3 - o.ns) if (o.kind == "load" and o.ns) else o for o in ops]
 
 
-def embeddings(pat: list[Op], hist: list[Op], limit: int = 6) -> Iterator[list[int]]:
+def embeddings(pat: list[Op], hist: list[Op], limit: int = 6,
+               exact: bool = False) -> Iterator[list[int]]:
     """Index lists of *hist* forming *pat* as a subsequence that ends at hist's last
     step, up to an injective renaming of names and namespaces.  An attribute of the
     pattern that is at its simplified value (sync, no namespace, no globals) matches
@@ -549,10 +647,12 @@ def embeddings(pat: list[Op], hist: list[Op], limit: int = 6) -> Iterator[list[i
             return ((not p.g or p.g == h.g or (p.g in below and h.g in below))
                     and (not p.via or h.via == 1))
         if p.kind != "load":
-            return True
+            return not exact or p.name == h.name
+        if exact and (p.name != h.name or p.ns != h.ns):
+            return False  # names and namespace values are meaningful, no renaming
         return ((not p.mode or h.mode == 1) and (not p.ns or h.ns != 0)
                 and (p.g != 1 or h.g == 1) and (p.g != 2 or h.g == 2)
-                and (not (p.ns and p.via) or h.via == 1))
+                and (not p.via or h.via == p.via))
 
     def rec(pi: int, hi: int, nmap: dict[int, int], smap: dict[int, int],
             acc: list[int]) -> Iterator[list[int]]:
